@@ -265,15 +265,15 @@ fn shipped_config(lkm: bool) -> Option<Value> {
 }
 
 /// One in-process analysis; returns the sorted warnings rendered as JSON text.
-fn inprocess_analyse(files: &InputFiles) -> Result<String, String> {
+fn inprocess_analyse(elf: &std::path::Path, pcode: &std::path::Path) -> Result<String, String> {
     use cwe_checker_lib::analysis::graph;
     use cwe_checker_lib::pipeline::{disassemble_binary, AnalysisResults};
     use cwe_checker_lib::utils::debug;
     let settings = debug::SettingsBuilder::default()
         .set_verbosity(debug::Verbosity::Quiet)
-        .set_saved_pcode_raw(files.pcode.clone())
+        .set_saved_pcode_raw(pcode.to_path_buf())
         .build();
-    let (binary, project, _logs) = disassemble_binary(&files.elf, None, &settings).map_err(|e| format!("disassemble_binary: {e}"))?;
+    let (binary, project, _logs) = disassemble_binary(elf, None, &settings).map_err(|e| format!("disassemble_binary: {e}"))?;
     let lkm = project.runtime_memory_image.is_lkm;
     let config = shipped_config(lkm).ok_or("cannot read the shipped configuration")?;
     let mut modules = cwe_checker_lib::get_modules();
@@ -306,9 +306,27 @@ fn inprocess_check(inp: &Input, reps: usize, rep: &mut Report) {
         }
     };
     let mut first: Option<String> = None;
+    let mut worker = BoundedWorker::new();
     for k in 0..reps {
         rep.eval();
-        match guard(|| inprocess_analyse(&files)) {
+        if ABANDONED_THREADS.load(std::sync::atomic::Ordering::SeqCst) >= ABANDONED_CAP {
+            rep.inconclusive("inprocess:skipped-after-repeated-non-termination");
+            return;
+        }
+        // on a helper thread with a CPU-time bound: a pipeline that does not terminate is C21 material, but must not hang this check
+        let (elf, pcode) = (std::path::PathBuf::from(&files.elf), std::path::PathBuf::from(&files.pcode));
+        let res = match worker.run(30_000, move || guard(|| inprocess_analyse(&elf, &pcode))) {
+            Bounded::Done(r) => r,
+            Bounded::Hang { .. } => {
+                rep.inconclusive("inprocess:no-termination-within-30s-cpu");
+                return;
+            }
+            Bounded::Starved | Bounded::Died => {
+                rep.inconclusive("inprocess:helper-thread-lost");
+                return;
+            }
+        };
+        match res {
             Ok(Ok(out)) => match &first {
                 None => first = Some(out),
                 Some(f) if *f != out => {
